@@ -163,11 +163,10 @@ Proof.
     rewrite seq_add_succ. f_equal. unfold lenN. cbn [length]. lia.
 Qed.
 
-Lemma out_ts_ok site rate ts : rate_ok rate -> out_ts site rate ts = Ok (ts / (rate / 1000)).
+Lemma out_ts_ok site rate ts : rate_ok rate -> out_ts site rate ts = Ok (rtp_ms rate ts).
 Proof.
-  intros [H1 H2]. unfold out_ts, u32.
-  assert (E : (rate / 1000) mod 4294967296 = rate / 1000) by (apply N.mod_small; lia).
-  rewrite E. destruct (rate / 1000 =? 0) eqn:E0; [lia|reflexivity].
+  intros [H1 H2]. unfold out_ts.
+  destruct (rate =? 0) eqn:E0; [apply N.eqb_eq in E0; lia|reflexivity].
 Qed.
 
 Lemma try_unpack_one_video c rate l :
@@ -188,7 +187,7 @@ Lemma video_frame_good c nal maxp rate s ts pls :
   single_type_ok c nal -> rate_ok rate -> s < 65536 ->
   pack_nal true c nal maxp = Ok pls ->
   frame_good (proto_of_codec c) rate (mk_upkts (proto_of_codec c) s ts pls)
-             [(ts / (rate / 1000), avcc nal)].
+             [(rtp_ms rate ts, avcc nal)].
 Proof.
   intros Hh Hne Hb0 Hty Hrate Hs Hp.
   destruct (N.le_gt_cases (lenN nal) maxp) as [Hle|Hgt].
@@ -297,7 +296,7 @@ Qed.
 
 Lemma aac_frame_good frame maxp rate s ts :
   0 < maxp -> lenN frame < 8192 -> rate_ok rate ->
-  frame_good PAac rate (mk_upkts PAac s ts (pack_aac frame maxp)) [(ts / (rate / 1000), frame)].
+  frame_good PAac rate (mk_upkts PAac s ts (pack_aac frame maxp)) [(rtp_ms rate ts, frame)].
 Proof.
   intros Hm Hl Hr. unfold pack_aac. destruct (maxp =? 0) eqn:E; [lia|].
   cbn [mk_upkts app]. split; [discriminate|]. split.
@@ -313,7 +312,7 @@ Qed.
 
 Lemma raw_frame_good frame maxp rate s ts :
   0 < maxp -> rate_ok rate ->
-  frame_good PRaw rate (mk_upkts PRaw s ts (pack_raw frame maxp)) [(ts / (rate / 1000), frame)].
+  frame_good PRaw rate (mk_upkts PRaw s ts (pack_raw frame maxp)) [(rtp_ms rate ts, frame)].
 Proof.
   intros Hm Hr. unfold pack_raw. destruct (maxp =? 0) eqn:E; [lia|].
   cbn [mk_upkts]. split; [discriminate|]. split.
